@@ -175,6 +175,36 @@ def gen_scenario(ctx, k):
     sc.add(f'mark c{n + 1}', 'stop')
     return sc.text(), cfg, nodes, cases, variant + ('+nested' if nested is not None else '') + ('+address-reuse' if reused[0] else '') + ('+earlier-session' if prelude else ''), blocked_board['id'] if blocked_board else None
 
+def gen_directed(ctx, k):
+    """the application reads (and frees) the message queue while the receiver is parked at its p-th scheduling point inside the handling of
+    ONE report of a SecAck board: whatever the application does with the report it was handed, the mirror carries the reported bytes"""
+    from .. import sweep
+    rng = ctx.sub_rng('c19d', k)
+    cfg = cfggen.gen_config(rng, nboards=rng.randrange(1, 3), rich=False, with_initial=False, max_trains=1)
+    for b in cfg['boards']:
+        b['features'] = [(n_, v_) for (n_, v_) in (b['features'] or []) if n_ != 3] + [(3, 1)]
+        if not b.get('segments'):
+            b['segments'] = [{'id': f'xs{b["id"]}_{i}', 'address': a, 'length': '1cm'} for i, a in enumerate(rng.sample(range(0, 128), 3))]
+    d = cfggen.write_config(cfg, cfg_dir(f'c19d_{k}'))
+    nodes = cfggen.assign_tree(rng, cfg, absent_prob=0.0, unknown=0)
+    m = statemodel.Model(cfg, nodes)
+    sc = Scn(seed=ctx.seed * 97 + k, watchdog=300000)
+    sc.add(*cfggen.bus_lines(cfg, nodes), 'bus brackets 0', 'bus policy 19 never', f'start {d} 0', 'quiesce', 'flush', 'quiesce', 'drain')
+    conn = [b for b in cfg['boards'] if m.connected(b['id'])]
+    cases = []
+    fn = bool(k % 2)
+    for p_ in (range(1, 21) if not fn else range(1, 50, 2)):
+        b = rng.choice(conn)
+        ad = m.addr[b['id']]
+        kind, data = gen_report(rng, b)
+        if k % 3 == 0:
+            kind, data = 'MSG_BM_POSITION', bytes(rng.randrange(1, 256) for _ in range(5))
+        sweep.add_receiver_case(sc, len(cases), [up(model.build_msg(ad, 0, C(kind), data))], ['readm', 'readm'], p_, fn, after=('release', 'quiesce', 'drain'))
+        cases.append(([(ad, kind, data, b['id'], True, False)], False))
+    n = len(cases)
+    sc.add(f'mark c{n}', f'mark c{n + 1}', 'stop')
+    return sc.text(), cfg, nodes, cases, 'directed-reader', None
+
 def evaluate(ctx, r, cfg, nodes, cases, variant, blocked, meta):
     if ctx.generic_failures(r, meta):
         return
@@ -248,6 +278,9 @@ def evaluate(ctx, r, cfg, nodes, cases, variant, blocked, meta):
                     return
         nmir += len(mir)
     ctx.count('mirrors_checked', nmir)
+    if variant == 'directed-reader':
+        from .. import sweep
+        sweep.pause_stats(ctx, r.events, 'directed')
     if 'earlier-session' in variant:
         ctx.count('scenarios_with_earlier_session_of_opposite_secack')
     if 'address-reuse' in variant:
@@ -262,7 +295,7 @@ def run(ctx):
                 'connected boards and an unknown node, no flush step; variants: the reporting board stalled, its queue blocked by a held 30-byte request, or a board lost and another configured board (SecAck setting differs) logging on at the freed address; configured boards may be absent. '
                 'non-trivial = distinct scenario in which >=1 mirror was checked')
     ctx.assumptions = ['a report counts from the quiescent point after it was fed', 'mirror messages have no response, so only a stall or a held message in front can delay them']
-    jobs = [gen_scenario(ctx, k) for k in range(ctx.n(250, 9000))]
+    jobs = [gen_scenario(ctx, k) for k in range(ctx.n(250, 9000))] + [gen_directed(ctx, k) for k in range(ctx.n(12, 300))]
     res = runner.run_many('asan', [(i, j[0]) for i, j in enumerate(jobs)], timeout=600)
     for j, r in zip(jobs, res):
         meta = {'digest': hashlib.sha1(j[0].encode()).hexdigest()[:12], 'variant': j[4]}
